@@ -107,6 +107,21 @@ def propagate(repo, res):
         idx = [i for i, s in enumerate(stmts) if isinstance(s, ast.Assign) and norm(s.targets[0]) == "self." + a and norm(s.value) == "self." + a]
         ok = bool(idx) and bool(flag_idx) and min(idx) > flag_idx[0]
         res.check("P-PROPAGATE", "__post_init__ re-assigns BaseParam.%s after switching propagation on" % a, ok, m, pi, "self.%s = self.%s %s" % (a, a, "missing" if not idx else "before the flag"), "a %s given to the constructor of a group is not handed to its nested groups" % a, qualname="BaseParam.__post_init__")
+    # item assignment takes the propagating path too, and nothing else stores fields behind __setattr__'s back
+    si = base.methods.get("__setitem__")
+    if si is not None:
+        kp, vp = [a.arg for a in si.args.args][1:3]
+        fwd = [c for c in walk_no_nested(si) if isinstance(c, ast.Call) and ((norm(c.func) == "self.__setattr__" and [norm(a) for a in c.args] == [kp, vp]) or (call_name(c) == "setattr" and [norm(a) for a in c.args] == ["self", kp, vp]))]
+        res.check("P-PROPAGATE", "__setitem__ assigns through the propagating __setattr__", len(fwd) == 1, m, si, "__setitem__: %s" % " ; ".join(norm(x) for x in si.body)[:120], "params[name] = value does not reach the nested groups", qualname="BaseParam.__setitem__")
+    for c in m.classes.values():
+        for mn, fn in c.methods.items():
+            if c is base and mn == "__setattr__":
+                continue
+            for x in walk_no_nested(fn):
+                raw = isinstance(x, ast.Call) and ((isinstance(x.func, ast.Attribute) and x.func.attr == "__setattr__" and isinstance(x.func.value, ast.Call) and call_name(x.func.value) in ("super", "object")) or call_name(x) == "object.__setattr__")
+                raw = raw or (isinstance(x, ast.Subscript) and isinstance(x.ctx, ast.Store) and norm(x.value) in ("self.__dict__", "vars(self)"))
+                if raw:
+                    res.bad("P-PROPAGATE", "%s.%s stores fields directly" % (c.name, mn), Finding("P-PROPAGATE", m, x, "%s.%s: %s" % (c.name, mn, norm(x)[:80]), "a field is stored behind the back of the propagating __setattr__: nested groups do not receive the value", qualname="%s.%s" % (c.name, mn)))
     for c in classes.values():
         if c is base:
             continue
